@@ -46,6 +46,14 @@ def corpus():
                                 "reports": ['taskreport rep "rep" {\n  formats json, csv\n  columns id, name, start, end\n  timeformat "%Y-%m-%d %H:%M"\n}']}))
     texts.append('macro alloc [ allocate ${1} ]\nmacro eff [ effort 2h ]\n' + render.render(
         {"resources": [{"id": "r1"}], "tasks": [{"id": "a", "raw": ["${eff}", "${alloc r1}"]}, {"id": "b", "raw": ["${eff}", "${alloc r1}"], "prec": ["a"]}]}))
+    from mc.props import c16, c18
+    texts.append(render.render(c16.multi_spec({"bi": 3, "tier": "quick", "tree": "T4", "ov": (("s2", "a", "effort", "x2"),)})))
+    texts.append(render.render(c18.to_spec({"pi": 1, "cols": ("id", "name", "start", "cost"), "rf": "%d.%m.%Y %H:%M", "pf": "%Y/%m/%d", "leaf": True, "fmts": ("json", "csv")})))
+    texts.append(render.render({"alap": True, "pwh": [("mon - fri", ["8:00 - 12:00", "13:00 - 17:00"])], "gleaves": [("holiday", "2025-01-09", "2025-01-11")],
+                                "resources": [{"id": "grp", "hours": [("mon - sat", ["7:00 - 15:00"])], "children": [{"id": "r1", "rate": 10.0}, {"id": "r2", "limits": {"weeklymax": "10h"}}]}],
+                                "tasks": [{"id": "g", "end": "2025-01-17-17:00", "children": [{"id": "a", "effort": 300, "alloc": ["r1"], "alt": ["r2"]},
+                                                                                                 {"id": "b", "effort": 200, "alloc": ["r1", "r2"], "deps": [{"ref": "!a", "gap": "1d"}]}]},
+                                          {"id": "m", "milestone": True, "prec": ["g"]}]}))
     for p in ("/repo/examples/simple.tjp", "/repo/tests/data/simple.tjp"):
         try:
             import os
